@@ -12,8 +12,10 @@ Tables
 * `C04_tz_table`           every non-empty zone value is `±HH:MM`, |offset| ≤ 14 h, scans (both
                            `%z`/`%:z` and `%#z`) to that offset; upper/lower-case keys agree
 * `C04_month_table`        every accepted month name maps to the month it names
-* `C04_may_dot_panics`     FINDING: `May.` (accepted by `CGP_MONTHb`'s `(…|May|…)[\.]?`) has no arm
-                           in `month_bB_to_month_m_bytes`: the code panics
+* `C04_month_abbrev_complete` every written form (3 cases × optional dot) of every abbreviation has an arm
+* `C04_may_dot`            REPAIRED (was F27 `C04_may_dot_panics`): `May.` (accepted by `CGP_MONTHb`'s
+                           `(…|May|…)[\.]?`) now maps to `05`; `C04_may_dot_before_repair` is the
+                           counter-model (table without the three names: look-up fails = the old panic)
 
 Stages of `C04_normalise_parse`
 * stage P  `C04_normalise_parse`  (all date-time sets): if the pieces written to the buffer are the
@@ -94,17 +96,60 @@ def monthEntryOK (kv : Bytes × Bytes) : Bool :=
 
 theorem C04_month_table : monthNamesB.all monthEntryOK = true := by decide +kernel
 
-/-- FINDING. `May.` is matched by `CGP_MONTHb` (`(…|may|May|MAY|…)[\.]?`) but has no arm in
-`month_bB_to_month_m_bytes` ("MONTH_05_b_ld not needed"): normalisation panics. -/
-theorem C04_may_dot_panics (set : DTFSSet) (c : Captures) (tzs : Bytes) (fill : Option Int)
+theorem C04_month_table_size : monthNamesB.length = 105 ∧ monthNames.length = 105 := by decide +kernel
+
+/-- first letter upper-case, the rest as given -/
+def capitalB (b : Bytes) : Bytes :=
+  match b with
+  | [] => []
+  | c :: r => upperB [c] ++ r
+
+/-- the six written forms of an abbreviation the month regex `CGP_MONTHb` accepts
+(`(jan|Jan|JAN|…)[\.]?`): lower / Capitalised / UPPER, each with and without a trailing dot -/
+def abbrevForms (abbr : Bytes) : List Bytes :=
+  [abbr, capitalB abbr, upperB abbr, abbr ++ [46], capitalB abbr ++ [46], upperB abbr ++ [46]]
+
+/-- every form of every abbreviation has an arm and maps to its month — `may.`/`May.`/`MAY.` included
+(72 forms) -/
+theorem C04_month_abbrev_complete :
+    monthSpec.all (fun p => (abbrevForms p.1).all fun f => lookup monthNamesB f == some (dec2 p.2)) = true := by
+  decide +kernel
+
+/-- REPAIRED (was finding F27, `C04_may_dot_panics`). `May.` is matched by `CGP_MONTHb`
+(`(…|may|May|MAY|…)[\.]?`) and `month_bB_to_month_m_bytes` now has the arm
+`b"may." | b"May." | b"MAY." => MONTH_05_m`: the month piece is `05` like for every other dotted
+abbreviation. -/
+theorem C04_may_dot (set : DTFSSet) (c : Captures)
     (hm : set.month = .b ∨ set.month = .B)
     (hc : c.month = some [77, 97, 121, 46] ∨ c.month = some [109, 97, 121, 46] ∨ c.month = some [77, 65, 89, 46]) :
-    capturesToBuffer set c tzs fill = none := by
-  have hl : monthPiece set.month c = none := by
-    rcases hm with hm | hm <;> rcases hc with hc | hc | hc <;> rw [hm] <;> simp only [monthPiece, hc, Option.bind_some] <;> decide
-  unfold capturesToBuffer
-  rw [hl]
-  split <;> simp_all
+    monthPiece set.month c = some (dec2 5) := by
+  rcases hm with hm | hm <;> rcases hc with hc | hc | hc <;> rw [hm] <;>
+    simp only [monthPiece, hc, Option.bind_some] <;> decide +kernel
+
+example : ("May.".toUTF8.toList, "may.".toUTF8.toList, "MAY.".toUTF8.toList)
+    = (([77, 97, 121, 46], [109, 97, 121, 46], [77, 65, 89, 46]) : Bytes × Bytes × Bytes) := by decide +kernel
+
+/-- the hypotheses of `C04_may_dot` are satisfiable (the RFC 3164-with-year set, capture `May.`) -/
+example : monthPiece DTFSS_BdHMSY.month { month := some [77, 97, 121, 46] } = some [48, 53] := by decide +kernel
+
+/-- `may.`, `May.`, `MAY.` -/
+def mayDotNames : List Bytes := [[109, 97, 121, 46], [77, 97, 121, 46], [77, 65, 89, 46]]
+
+/-- Counter-model documenting the repair: the month table as it was before commit b9821264
+("MONTH_05_b_ld not needed"), i.e. without the three dotted May names. -/
+def monthNamesB_beforeRepair : List (Bytes × Bytes) :=
+  monthNamesB.filter fun kv => !mayDotNames.contains kv.1
+
+/-- with the old table (102 names) the look-up of `May.` / `may.` / `MAY.` fails — the code took the
+`data_ => panic!` arm — while every other name is treated as now -/
+theorem C04_may_dot_before_repair :
+    monthNamesB_beforeRepair.length = 102 ∧
+    lookup monthNamesB_beforeRepair [77, 97, 121, 46] = none ∧
+    lookup monthNamesB_beforeRepair [109, 97, 121, 46] = none ∧
+    lookup monthNamesB_beforeRepair [77, 65, 89, 46] = none ∧
+    (monthNamesB.all fun kv => mayDotNames.contains kv.1 ||
+        lookup monthNamesB_beforeRepair kv.1 == lookup monthNamesB kv.1) = true := by
+  decide +kernel
 
 /-! ### stage P: canonical pieces parse to the denoted instant -/
 
